@@ -292,6 +292,8 @@ def r09_5(ctx: Ctx) -> None:
 
 
 def run(ctx: Ctx) -> None:
+    from . import c06 as _c06x
+    _c06x.dispatch_forwards_skip(ctx, "R09.7")
     from . import c06 as _c06
     _c06.r06_10(ctx, rule="R09.6")  # selective extraction skips folders: the remaining tasks must keep their own byte windows
     r09_1(ctx)
